@@ -94,8 +94,43 @@ func view(path string, pagesSel []int, selHow, mode, api, tm string) (string, er
 			sb.WriteString("\n\n")
 		}
 		return sb.String(), err
+	case "Fragments":
+		fr, _, err := e.Fragments()
+		return joinFragments(fr), err
+	case "ReadingOrder":
+		ro, err := e.ReadingOrder()
+		if err != nil || ro == nil {
+			return "", err
+		}
+		return joinFragments(ro.Fragments), nil
+	case "Markdown":
+		s, _, err := e.ToMarkdown()
+		return s, err
+	case "Document":
+		doc, _, err := e.Document()
+		if err != nil || doc == nil {
+			return "", err
+		}
+		return doc.ExtractText(), nil
 	}
 	panic("api")
+}
+
+// joinFragments renders a fragment list: fragments on the same baseline are
+// glued (so that the characters of a character-level page spell their words
+// again), a change of baseline starts a new line.
+func joinFragments(fr []text.TextFragment) string {
+	var sb strings.Builder
+	for i, f := range fr {
+		if i > 0 && (f.Y != fr[i-1].Y || f.X < fr[i-1].X) {
+			sb.WriteString("\n")
+		}
+		sb.WriteString(f.Text)
+		if len([]rune(f.Text)) > 1 {
+			sb.WriteString("\n")
+		}
+	}
+	return sb.String()
 }
 
 type pdfCase struct {
@@ -242,7 +277,10 @@ func (q request) String() string {
 func genRequests(r *rand.Rand, d *docSpec, n int) []request {
 	var out []request
 	modes := []string{"H", "F", "HF", "H+F"}
-	apis := []string{"Text", "Text", "Lines", "Paragraphs"}
+	// Text (plain / PreserveLayout), Lines and Fragments do not run column
+	// detection on ordinary pages: more than half of the requests stay clear of
+	// the trigger of the known finding C11-layout-reflow-after-filter.
+	apis := []string{"Text", "Text", "Text", "Text", "Text", "Text", "Lines", "Lines", "Lines", "Fragments", "Paragraphs", "ReadingOrder", "Markdown", "Document"}
 	for k := 0; k < n; k++ {
 		q := request{Mode: modes[r.Intn(len(modes))], API: apis[r.Intn(len(apis))], SelHow: []string{"pages-first", "mode-first"}[r.Intn(2)]}
 		if k < 3 {
@@ -304,7 +342,13 @@ func facadeCheck(c *fw.Ctx, pc *pdfCase, q request) (verdict, bool) {
 	if os.Getenv("C11_DEBUG") != "" {
 		fmt.Fprintf(os.Stderr, "--- %s\nwithout: %q\nwith:    %q\n", q, base, got)
 	}
-	v, ok := judgeAtoms(d, selSet(d, q.Sel), truthMode(q.Mode), U, F)
+	tm := truthMode(q.Mode)
+	if q.API == "Fragments" {
+		// Fragments() documents no exclusion and applies none: only the
+		// "nothing else is deleted" clauses are asserted there.
+		tm = "none"
+	}
+	v, ok := judgeAtoms(d, selSet(d, q.Sel), tm, U, F)
 	if !ok {
 		return v, false
 	}
@@ -465,7 +509,7 @@ func Run(c *fw.Ctx) {
 		"text outputs are compared as sequences of atoms (unique tokens and numbers); a comparison is skipped (counted) when the output without exclusion does not show every constructed unit exactly once (that is C01/C09's matter)")
 	dir := filepath.Join(c.Work, "c11")
 	os.MkdirAll(dir, 0o755)
-	n := c.N(1000, 30000)
+	n := c.N(2500, 40000)
 	c.Parallel(n, func(i int) { runPDF(c, dir, i) })
 	runOffice(c, dir)
 
